@@ -116,6 +116,15 @@ Check ==
 Next == Call \/ Restart \/ Grow \/ Read \/ OnErr \/ Check
 Spec == Init /\ [][Next]_vars /\ WF_vars(Next)
 
+\* Scan() called again after it has returned false (the caller may do that any number of times):
+\* RESTART finds offset = end and eof, and returns false again
+Again ==
+  /\ pc = "idle" /\ done
+  /\ pc' = "restart"
+  /\ UNCHANGED <<bufs, cur, offset, end, eof, lastn, delivered, st, stalls, toks, handed, errs, done>>
+NextA == Next \/ Again
+SpecA == Init /\ [][NextA]_vars /\ WF_vars(Next)
+
 --------------------------------------------------------------------------------
 A == INSTANCE Scanner WITH pending <- SubSeq(Buf, offset + 1, end), ntoks <- Len(toks)
 
@@ -128,4 +137,6 @@ NoReadAfterEnd == pc \in {"grow", "read", "check"} => (~eof /\ st = "open")
 Lifetime    == \A i \in 1..Len(handed) : View(handed[i]) = handed[i].data
 Refines     == A!ASpec
 Terminates  == <>done
+\* the end is final: once Scan() has returned false nothing is read, returned, reported or written any more
+EndIsFinal  == [][done => UNCHANGED <<bufs, delivered, st, toks, handed, errs, done>>]_vars
 =============================================================================
